@@ -518,6 +518,24 @@ class CFG:
         """Every path a -> b passes through a node of `through` (vacuously true if unreachable)"""
         return b.id not in self.reachable(a, avoid=through)
 
+    def on_every_path(self, nodes: Iterable[Node], start: Optional[Node] = None, end: Optional[Node] = None) -> bool:
+        """Every non-exceptional path from `start` (entry) to `end` (normal exit) passes through one of `nodes`"""
+        av = {n.id for n in nodes}
+        start = start or self.entry
+        end = end or self.exit
+        seen, stack = set(), [start]
+        while stack:
+            n = stack.pop()
+            if n.id in seen or n.id in av:
+                continue
+            seen.add(n.id)
+            if n is end:
+                return False
+            for m, l in n.succ:
+                if l != "exc":
+                    stack.append(m)
+        return True
+
     def dominators(self) -> Dict[int, Set[int]]:
         if self._dom is None:
             live = self.live
